@@ -270,6 +270,32 @@ def c_huge_step(k: int, a: Optional[int], b: Optional[int]) -> bool:
     return True
 
 
+_PARENTS = [(slice(None), slice(None)), (slice(1, None), slice(None)), (slice(None), slice(None, None, 2)),
+            (slice(None, None, 2), slice(1, None))]
+
+
+def c_sub_slice(k: int, pi: int, a: Optional[int], b: Optional[int], c: Optional[int], d: Optional[int]) -> bool:
+    """
+    pre: 0 <= k < N_PLATES
+    pre: 0 <= pi < 4
+    pre: (a is None or 0 <= a <= 30) and (b is None or 0 <= b <= 30) and (c is None or 0 <= c <= 30) and (d is None or 0 <= d <= 30)
+    post: _
+    """
+    # a slice of a slice: 0-based positions relative to the parent selection, Python slicing semantics
+    psel = _PARENTS[pi]
+    prs = _ref_range(psel[0].start, psel[0].stop, psel[0].step, _row_labels(k))
+    pcs = _ref_range(psel[1].start, psel[1].stop, psel[1].step, _col_labels(k))
+    want = _names(k, _grid(prs[a:b], pcs[c:d]))
+    try:
+        parent = PLATES[k][psel]
+        n_parent = parent.size                 # reading the parent's size first must not matter
+        sub = parent[a:b, c:d]
+        got = [w.name for w in sub.get().flatten()]
+        return got == want and sub.size == len(want) and n_parent == len(prs) * len(pcs)
+    except Exception:
+        return False
+
+
 def c_malformed(k: int, i: int, j: int, m: int) -> bool:
     """
     pre: 0 <= k < N_PLATES
